@@ -62,8 +62,11 @@ async def one(seq, retries):
         port = transport.get_extra_info("sockname")[1]
         before = fd_count()
     outcome = None
+    request = REQUEST
+    if seq == ["send-error"]:
+        request = b"\x30" * 65508  # one octet more than a UDP datagram holds: EMSGSIZE
     try:
-        data = await send_udp(Endpoint(ip_address("127.0.0.1"), port), REQUEST, timeout=TIMEOUT, retries=retries)
+        data = await send_udp(Endpoint(ip_address("127.0.0.1"), port), request, timeout=TIMEOUT, retries=retries)
         outcome = ["result", data.decode("latin1")]
     except Exception as exc:  # noqa
         outcome = ["exception", type(exc).__name__ if not isinstance(exc, OSError) else "OSError"]
@@ -71,6 +74,8 @@ async def one(seq, retries):
     after = fd_count()
     received = len(peer.received) if peer else None
     same = all(d == REQUEST for d in peer.received) if peer else None
+    if seq == ["send-error"]:
+        received = same = None  # nothing leaves the host
     if peer:
         transport.close()
         await asyncio.sleep(0)
@@ -87,6 +92,8 @@ SEQUENCES = [
     (["two-replies"], 1),
     (["icmp"], 1),
     (["icmp"], 2),
+    (["send-error"], 1),
+    (["send-error"], 2),
 ]
 
 
